@@ -214,6 +214,30 @@ func c06Flat(c *Case, f *flatSeq, label string) {
 	}
 }
 
+// c06Long checks one left-leaning run too long for the enumeration of bracketings: the model of the
+// left-to-right tree against the implementation on the text without parentheses (M2), and that text against
+// the fully parenthesised one on the same implementation (M3).
+func c06Long(c *Case, tree Expr, label string) {
+	p := c06Program(tree)
+	c.Count("sequences:long-run")
+	c.NonTrivial("long:" + label)
+	r := m2(c, &M2Case{Prog: p, Budget: 40000, Desc: label})
+	rd := RenderProgram(p, ParenFull, nil)
+	full, _ := rd.Layout(nil)
+	libFull := RunLib(full, nil, nil, RunOpts{Budget: 40000})
+	if r.Lib.Class == "budget" || libFull.Class == "budget" {
+		c.Inconclusive("budget")
+		return
+	}
+	if r.Lib.Class == libFull.Class && string(r.Lib.Stdout) == string(libFull.Stdout) {
+		c.Held()
+	} else {
+		c.Violation(fmt.Sprintf("%s evaluates differently from its fully parenthesised form: %s %q vs %s %q", label,
+			r.Lib.Class, clip(string(r.Lib.Stdout), 60), libFull.Class, clip(string(libFull.Stdout), 60)),
+			nil, map[string]any{"minimal": Canon(p), "full": full})
+	}
+}
+
 func fullParen(e Expr) Expr {
 	rd := RenderExpr(e, ParenFull, nil)
 	s, _ := rd.Layout(nil)
@@ -455,6 +479,34 @@ func c06Specials(c *Case) {
 			}
 		}
 	}
+	// long runs of one operator (seventh round: a parser that re-balances runs of 16 and more + or * operators):
+	// 15 to 63 operators, a string among numbers for + (concatenation is not associative with addition),
+	// decimals for the arithmetic operators (floating-point addition and multiplication are not associative)
+	decs := []string{"0.1", "0.7", "1.3", "2.9", "0.3"}
+	for _, op := range c06Bin {
+		for li, n := range []int{15, 16, 17, 23, 24, 31, 32, 33, 40, 47, 63} {
+			for variant := 0; variant < 2; variant++ {
+				var e Expr
+				for i := 0; i <= n; i++ {
+					var leaf Expr
+					switch {
+					case variant == 0 && i == (n*(li+2))/13%(n+1):
+						leaf = S("s")
+					case variant == 0:
+						leaf = N("1")
+					default:
+						leaf = N(decs[(i+li)%len(decs)])
+					}
+					if i == 0 {
+						e = leaf
+					} else {
+						e = Bin(op, e, leaf)
+					}
+				}
+				c06Long(c, e, fmt.Sprintf("run of %d %s (variant %d)", n, op, variant))
+			}
+		}
+	}
 	for _, fm := range []struct {
 		text string
 		e    Expr
@@ -540,7 +592,7 @@ func c06Run(c *Case) {
 func init() {
 	register(&Prop{
 		ID: "C06", Level: "exploration",
-		Rule:          "enumerated: a op1 b op2 c for every ordered pair of the 21 binary operators (13 value operators, && ||, is, = += -= *= /=) with 3 leaf tuples each; all 9261 ordered triples with 2 leaf tuples; runs of 4 and 5 operands of one operator; 40 prefix/suffix/parenthesis forms (also written without any white space); sampled: random trees to depth 6 rendered minimal, full and random-redundant. Each case is checked twice: model of the intended tree vs. the implementation on the unparenthesised text (M2), and unparenthesised vs. fully parenthesised text run by the same implementation (M3). Non-trivial = discriminating: the model evaluates every other bracketing of the same token string and at least one gives a different value or outcome (random trees: at least 4 operators).",
+		Rule:          "enumerated: a op1 b op2 c for every ordered pair of the 21 binary operators (13 value operators, && ||, is, = += -= *= /=) with 3 leaf tuples each; all 9261 ordered triples with 2 leaf tuples; runs of 4 and 5 operands of one operator; runs of 15-63 operators of each binary operator (a string among numbers, decimals: M2 and M3 only); 40 prefix/suffix/parenthesis forms (also written without any white space); sampled: random trees to depth 6 rendered minimal, full and random-redundant. Each case is checked twice: model of the intended tree vs. the implementation on the unparenthesised text (M2), and unparenthesised vs. fully parenthesised text run by the same implementation (M3). Non-trivial = discriminating: the model evaluates every other bracketing of the same token string and at least one gives a different value or outcome (random trees: at least 4 operators).",
 		NumCases:      c06Cases,
 		Run:           c06Run,
 		MinConclusive: func(tier string) int { return 5000 },
